@@ -352,12 +352,14 @@ func runReaderSeq(c *Ctx, i int64, seq []int, conc bool, trailing bool) {
 		}
 	}
 	if !hung && conc {
-		// drain an abandoned concurrent Reader so that its pipeline goroutines and buffers are released
+		// release the pipeline goroutines and buffers of an abandoned concurrent Reader: drain it, or, if it
+		// is in its error state (a refused Apply, a failed read) Reset it, which stops the pipeline
 		// (not judged: every judged call is part of the history above)
 		ep.src.Budget += 20000 + 10*len(ep.src.Data)
 		c.Watch("drain", func() {
 			defer func() { _ = recover() }()
 			_, _ = io.Copy(io.Discard, r)
+			r.Reset(bytes.NewReader(nil))
 		})
 	}
 	c.Count("reader_sequences", 1)
